@@ -597,7 +597,7 @@ def main(prop):
                                  {"records": nrec, "cores": 1, "outcome": inputs[nrec][2]})
                     return ck.finish()
         # 1. exhaustive: every schedule (stutter-reduced) of 2 workers x 1 record, for both copies of the collector loop
-        limit = 6000 if quick else 300000
+        limit = 6000 if quick else 100000
         scopes = []
         all_exhausted = True
         for nrec, bs, cores in configs[:2]:
